@@ -165,7 +165,11 @@ func (hash *SexpHash) jsonHashHelper() string {
 	for _, key := range hash.KeyOrder {
 		keyst := jsonQuote(jsonKeyName(key))
 		ko = append(ko, keyst)
-		val, err := hash.HashGet(nil, key)
+		// exact lookup: HashGet would walk a dotted symbol key such as a.b as a path
+		val, err := hash.HashGetDefault(nil, key, SexpEnd)
+		if err == nil && val == SexpEnd {
+			err = fmt.Errorf("%s has no field '%s'", hash.TypeName, key.SexpString(nil))
+		}
 		if err == nil {
 			str += keyst + `:`
 			str += string(SexpToJson(val)) + `, `
